@@ -11,7 +11,7 @@ import re
 
 from mc import domains as D
 from mc.engine import InputPart, Viol
-from mc.props.common import IT, PT, Textgrid, PE, errors, call, ents
+from mc.props.common import canon, IT, PT, Textgrid, PE, errors, call, ents
 from praatio.utilities import utils
 
 G = D.unit_grid(5)
@@ -261,6 +261,28 @@ def _check_eq(case):
         viols.append(Viol("tg-eq-misses-tier-order", f"{kind} {E}"))
     if t == "t" or t == 5 or tg == 5:
         viols.append(Viol("eq-foreign-type", f"{kind} {E}"))
+    # copies obtained with new(): equal to begin with; after an in-place edit of the COPY the two differ and the original still answers
+    # every query as before (also for tier.new() and for a copy of a copy)
+    for how in ("textgrid.new", "tier.new", "textgrid.new.new"):
+        src_tg = Textgrid()
+        src = _mk(kind, E)
+        src_tg.addTier(src)
+        if how == "tier.new":
+            cp_t, a_obj, b_obj = src.new(), src, None
+            b_obj = cp_t
+        else:
+            cp_tg = src_tg.new() if how == "textgrid.new" else src_tg.new().new()
+            cp_t, a_obj, b_obj = cp_tg.getTier("t"), src_tg, cp_tg
+        q_before = (canon(src), src.find("q"), src.timestamps)
+        n += 1
+        if not (a_obj == b_obj):
+            viols.append(Viol("copy-not-equal", f"{kind} {E}: {how}() does not compare equal to its source"))
+            continue
+        call(cp_t.insertEntry, (3.25, 3.5, "q") if kind == "I" else (3.25, "q"), "merge", "silence")
+        if a_obj == b_obj or b_obj == a_obj:
+            viols.append(Viol("eq-misses-edit-of-copy", f"{kind} {E}: after an entry was inserted into the {how}() copy only, copy and source still compare equal"))
+        if (canon(src), src.find("q"), src.timestamps) != q_before:
+            viols.append(Viol("copy-entangled-with-source", f"{kind} {E}: editing the {how}() copy changed what the source answers: {canon(src)[4]}"))
     return n, "ok", (kind, tuple(E)), viols
 
 
